@@ -16,6 +16,18 @@ CLAIMED = {
    note=TB + "Modelled, not verified: the C++ bit operations are written arithmetically in the model (stated in ScriptNum.v); the tie is the exhaustive/stratified differential run.",
    technique="Coq proof (induction on byte lists, lia/nia) + exhaustive differential correspondence against extracted model",
    ref="DESIGN.md §2 C18"),
+ "C03": dict(
+   text="Theorems (Properties/C03.v): the selected input references the funding transaction through an existing output, an explicit selection is "
+        "honoured or refused, automatic selection takes the first referencing input; amount and locking script come from the referenced output; "
+        "legacy inputs run scriptSig then that scriptPubKey on an empty stack; a segwit session exists only for a version-0/1 witness program that "
+        "is the scriptPubKey or the exact single push the P2SH scriptPubKey commits to, the revealed script/key hashes to the program (a mismatch "
+        "is refused), initial stack/script/control block/annex/validation weight are the ones BIP141/341 prescribe. NOT proved: equality of the "
+        "whole staged session with a monolithic VerifyScript specification (C03_session_equals_verify_script) - the session outcome is tied by "
+        "correspondence: synthesised pairs of every output type, signed by an independent signer, valid and corrupted, 1..3 inputs, --select, "
+        "flag variations, and the six doc/txs pairs; implementation vs model on every case and vs validity-by-construction.",
+   note=TB + "Elliptic-curve predicates are an oracle of the model answered by tools/refcrypto.py (independent pure-Python secp256k1); digests are modelled in Sighash.v and cross-checked by tools/gen_spend.py's independent implementation. Known finding F31 (multi-input taproot).",
+   technique="Coq proofs about input selection and session configuration + differential correspondence with independently signed spends",
+   ref="DESIGN.md §2 C03"),
  "C01": dict(
    text="Theorems (Properties/C01.v, unbounded over stacks/operands): every numeric opcode's expression - GENERATED from the C++ switch "
         "statements (Gen/NumOps.v) - equals its arithmetic function (OP_SUB operand order, OP_WITHIN bounds, MIN/MAX, comparisons); every "
